@@ -9,7 +9,9 @@ python3 tools/t6_twiddles.py
 [ -f tools/t5_surface.py ] && python3 tools/t5_surface.py || true
 (cd harness && cargo build --release --offline)
 python3 tools/t2_bflyops.py
-(cd lean && lake build rfvmodel && lake build RFV RFV.AllProps)
+# the theorem modules are pre-built here only to warm the cache: every check rebuilds its own Props modules and reports a
+# module that no longer builds as a broken obligation of that property, so a failing theorem must not stop the setup
+(cd lean && lake build rfvmodel && (lake build RFV RFV.AllProps || echo "setup: some theorem modules do not build (reported by the checks that own them)"))
 (cd harness && cargo build --release --offline && cargo build --release --offline --no-default-features --target-dir /verif/.build/cargo-none && cargo build --release --offline --no-default-features --features avx,sse --target-dir /verif/.build/cargo-nodebug --config profile.release.debug-assertions=false --config profile.release.overflow-checks=false)
 (cd witness && cargo build --offline)
 echo "setup ok"
